@@ -166,6 +166,7 @@ def run_case(case):
     dpa = klass.startswith('DPA')
     part = klass[:3] in ('ANO', 'NIC', 'SNR', 'MIA') or klass == 'TemplateBuild'
     log_ids, log_updates = [], []
+    sf_layout = int(rng.integers(2))      # the selection function may hand over Fortran-ordered intermediate values
 
     def sf_formula(vv, guesses=None):
         if guesses is None:
@@ -173,7 +174,7 @@ def run_case(case):
         out = np.empty((vv.shape[0], len(guesses), vv.shape[1]), dtype='uint8')
         for i, g in enumerate(guesses):
             out[:, i, :] = vv ^ np.uint8((int(g) * 37) % 256)
-        return out
+        return np.asfortranarray(out) if sf_layout == 1 else out
 
     if attack:
         @scared.attack_selection_function(guesses=range(G))
@@ -215,6 +216,11 @@ def run_case(case):
         kw['discriminant'] = disc
     if part:
         kw['partitions'] = parts
+    conv = None
+    if attack and rng.random() < 0.3:
+        # asking for convergence traces changes the batching (C08) but must not change what the run computes
+        conv = int(rng.choice([1, 2, 3, 5, 10, 25, 50, max(1, N // 2), N, N + 7]))
+        kw['convergence_step'] = conv
     edges = None
     if klass.startswith('MIA'):
         lo, hi = float(np.min(X)) if X.size else 0.0, float(np.max(X)) if X.size else 1.0
@@ -256,7 +262,7 @@ def run_case(case):
         nruns = 1
     cuts = [0] + sorted(rng.choice(np.arange(1, N), size=nruns - 1, replace=False).tolist()) + [N] if nruns > 1 else [0, N]
     info = dict(klass=klass, N=N, T=T, sample_dtype=sdt, words=W, frame=repr(frame)[:60], chain=cdesc, rule=rule, setting=repr(setting)[:60], expected_batch=expected_bs,
-                runs=cuts, precision=precision, guesses=G if attack else None, transformed_length=int(X.shape[1]))
+                runs=cuts, precision=precision, convergence_step=conv, guesses=G if attack else None, transformed_length=int(X.shape[1]))
     forced = klass[:3] in ('ANO', 'NIC', 'SNR') or klass == 'TemplateBuild'
     if forced:
         CONTROL.force(a, [int(x) for x in rng.integers(0, 2, 300)])
@@ -303,7 +309,11 @@ def run_case(case):
     for r, (s, e) in enumerate(run_marks):
         sizes = [len(b) for b in log_ids[s:e]]
         n_r = cuts[r + 1] - cuts[r]
-        ok = sum(sizes) == n_r and all(x == expected_bs for x in sizes[:-1]) and (not sizes or 0 < sizes[-1] <= expected_bs)
+        eb = expected_bs
+        if conv:
+            # documented rule: batches are cut so that convergence points fall on batch boundaries
+            eb = conv if expected_bs >= conv else int(conv / (conv // expected_bs))
+        ok = sum(sizes) == n_r and all(x == eb for x in sizes[:-1]) and (not sizes or 0 < sizes[-1] <= eb)
         t.check(ok, 'batch_sizes_do_not_follow_the_configured_rule', lambda: dict(info, run=r, sizes=sizes[:20], traces_in_run=n_r))
         if sizes and sizes[-1] == 1 and len(sizes) > 1:
             t.count('tail_batch_of_one')
@@ -324,5 +334,7 @@ def run_case(case):
     t.check(int(a.processed_traces) == N, 'processed_traces_wrong', lambda: dict(info, processed_traces=int(a.processed_traces)))
     if klass == 'TemplateBuild':
         t.check(tol.same(a.pooled_covariance, one.pooled_covariance), 'results_differ_from_one_shot_statistic', lambda: dict(info, what='pooled_covariance'))
-    sig = f"{klass}|{N}|{T}|{sdt}|{info['frame']}|{cdesc}|{rule}|{expected_bs}|{cuts}|{precision}"
+    if conv:
+        t.count('runs_with_convergence_step')
+    sig = f"{klass}|{N}|{T}|{sdt}|{info['frame']}|{cdesc}|{rule}|{expected_bs}|{cuts}|{precision}|{conv}"
     return t.result(sig=sig, sample=dict(case=case, derived=info, batch_sizes=[len(b) for b in log_ids][:12]))
